@@ -414,3 +414,39 @@ Proof.
   specialize (H (a, b) (in_ordered_pairs _ a b Ha Hb Hab)).
   apply Z.ltb_lt in Hpos. rewrite Hpos in H. exact H.
 Qed.
+
+(* the lattice edge of local edge e joins exactly the two corners of mcPairTable[e] (in either order) *)
+Definition pt_eqb (p q : Z * Z * Z) : bool :=
+  let '(px, py, pz) := p in let '(qx, qy, qz) := q in (px =? qx) && (py =? qy) && (pz =? qz).
+Lemma pt_eqb_eq p q : pt_eqb p q = true <-> p = q.
+Proof.
+  destruct p as [[px py] pz], q as [[qx qy] qz]; unfold pt_eqb. rewrite !andb_true_iff, !Z.eqb_eq.
+  split; [intros [[-> ->] ->]; reflexivity | intros [= -> -> ->]; auto].
+Qed.
+Definition ledge_ends_check (e : N) : bool :=
+  let '(a, b) := pair_of e in
+  let v := ledge e in
+  (a <? 8)%N && (b <? 8)%N &&
+  ((pt_eqb (fst v) (corner_off a) && pt_eqb (addp (fst v) (unit (snd v))) (corner_off b)) ||
+   (pt_eqb (fst v) (corner_off b) && pt_eqb (addp (fst v) (unit (snd v))) (corner_off a))).
+Lemma ledge_ends_ok_c : forallb ledge_ends_check ledges12 = true.
+Proof. vm_compute. reflexivity. Qed.
+Lemma ledge_ends e : (e < 12)%N ->
+  let '(a, b) := pair_of e in
+  (a < 8)%N /\ (b < 8)%N /\
+  ((fst (ledge e) = corner_off a /\ addp (fst (ledge e)) (unit (snd (ledge e))) = corner_off b) \/
+   (fst (ledge e) = corner_off b /\ addp (fst (ledge e)) (unit (snd (ledge e))) = corner_off a)).
+Proof.
+  intros He. pose proof (forallb_ledges _ ledge_ends_ok_c e He) as H. unfold ledge_ends_check in H.
+  destruct (pair_of e) as [a b]. cbv zeta in H.
+  rewrite !andb_true_iff, orb_true_iff, !andb_true_iff, !pt_eqb_eq, !N.ltb_lt in H. tauto.
+Qed.
+Lemma addp_assoc p q r : addp (addp p q) r = addp p (addp q r).
+Proof. destruct p as [[a b] c], q as [[a' b'] c'], r as [[a'' b''] c'']. unfold addp. f_equal; [f_equal|]; lia. Qed.
+Lemma in_chunk3 l a b c : In (a, b, c) (chunk3 l) -> In a l /\ In b l /\ In c l.
+Proof.
+  revert l a b c. fix IH 1. intros l a b c. destruct l as [|x [|y [|z r]]]; cbn [chunk3]; try (intros F; contradiction).
+  intros [E|Hr].
+  - inversion E; subst. cbn; tauto.
+  - destruct (IH r a b c Hr) as (Ha & Hb & Hc). cbn; tauto.
+Qed.
